@@ -138,7 +138,7 @@ func runC06(c *core.Ctx) {
 	}
 	for _, dsse := range []bool{false, true} {
 		for _, runDir := range []bool{false, true} {
-			for _, shape := range []string{"flat", "expired-sublayout", "expired-root-over-sublayout", "empty-layout", "expired-twin-sublayout"} {
+			for _, shape := range []string{"flat", "expired-sublayout", "expired-root-over-sublayout", "empty-layout", "expired-twin-sublayout", "expired-surplus-sublayout"} {
 				for ci, ec := range cases {
 					cn++
 					if !c.Mine(cn) {
@@ -185,6 +185,12 @@ func runC06(c *core.Ctx) {
 						setExp := func(l *intoto.Layout) { l.Expires = exp }
 						switch shape {
 						case "expired-sublayout":
+							child.LayoutHook = setExp
+						case "expired-surplus-sublayout":
+							// threshold 1 is already met by an honest plain link of a second authorized functionary;
+							// the first one delivers a sublayout with the expiry under test: every piece of authorized,
+							// validly signed evidence is followed, so the verification stands or falls with it
+							rootN.ExtraPlain, rootN.ExtraKey, rootN.SubThresh = true, fast[6], 1
 							child.LayoutHook = setExp
 						case "expired-twin-sublayout":
 							// two functionaries deliver the delegated step as a sublayout each (threshold 2);
@@ -287,7 +293,7 @@ func runC06(c *core.Ctx) {
 							}
 							// which markers may exist? none for the level that is expired/undated and none below/after it
 							forbidden := []string{"outer", "inner", "check"}
-							if shape == "expired-sublayout" {
+							if shape == "expired-sublayout" || shape == "expired-surplus-sublayout" {
 								forbidden = []string{"outer", "inner"}
 							}
 							if shape == "expired-twin-sublayout" {
@@ -319,7 +325,7 @@ func init() {
 	core.Register(&core.Property{
 		ID:    "C06",
 		Level: "exploration",
-		Rule: "catalogue of expiry strings: now -/+ {2s,5s,1min,1h,1d,1y,100y}, 'valid when built, verified 2.2 s after it expired', years 0001/1970/2999/9999, 24 malformed forms (a marker / a partial year that the verifier's parameters would complete to a future date, empty, date only, offsets, separators, impossible dates, trailing/leading text, other date layouts), arguable forms (leap second, lower case, fraction, one-digit fields: run but not judged); thorough: + 2000 random strings and every single-character mutation of a valid timestamp; x 2 wrappers x 2 entry points x {layout object as signed in memory, layout loaded from its file} x verifier time zones {UTC, America/Los_Angeles, Asia/Tokyo, Pacific/Kiritimati} (by worker) x {flat chain with inspection, valid root over an expired/undated sublayout, expired/undated root over a valid sublayout with its own inspection, layout without steps and inspections, a delegated step delivered as sublayouts by two functionaries of which the second copy is expired/undated (8 verifications each)}. Oracle: call bracket [t0,t1] sampled around the call (no clock of our own), marker files, trace automaton. " +
+		Rule: "catalogue of expiry strings: now -/+ {2s,5s,1min,1h,1d,1y,100y}, 'valid when built, verified 2.2 s after it expired', years 0001/1970/2999/9999, 24 malformed forms (a marker / a partial year that the verifier's parameters would complete to a future date, empty, date only, offsets, separators, impossible dates, trailing/leading text, other date layouts), arguable forms (leap second, lower case, fraction, one-digit fields: run but not judged); thorough: + 2000 random strings and every single-character mutation of a valid timestamp; x 2 wrappers x 2 entry points x {layout object as signed in memory, layout loaded from its file} x verifier time zones {UTC, America/Los_Angeles, Asia/Tokyo, Pacific/Kiritimati} (by worker) x {flat chain with inspection, valid root over an expired/undated sublayout, expired/undated root over a valid sublayout with its own inspection, layout without steps and inspections, a delegated step delivered as sublayouts by two functionaries of which the second copy is expired/undated (8 verifications each), a threshold-1 step met by a plain link while another authorized functionary's sublayout is expired/undated}. Oracle: call bracket [t0,t1] sampled around the call (no clock of our own), marker files, trace automaton. " +
 			"non-trivial = the layout signature phase passed; distinct = (class, label, wrapper, entry point, nesting)",
 		Assumptions: []string{"an expiry inside the call bracket [t0,t1] is inconclusive", "strings of arguable well-formedness (leap second, lower-case t/z, fractional seconds, one-digit fields) are not judged", "a rejected control with a future expiry is inconclusive (observation floor on accepted controls)"},
 		Workers:     func(string) int { return 16 },
